@@ -129,6 +129,64 @@ func runC12(r *core.Run) {
 			return core.Outcome{Class: "panics", Nontrivial: true, Evals: 2}
 		})
 
+	core.Clause(r, "revcomp-long", core.Opts{Rule: "position-dependent sequences over the 10-letter alphabet of every length 0..300 and 1000, 4095..4097, 65535..65537 x 3 dst variants; non-trivial = all"},
+		func(emit func(c12Seq) bool) {
+			var lens []int
+			for l := 5; l <= 300; l++ {
+				lens = append(lens, l)
+			}
+			lens = append(lens, 1000, 4095, 4096, 4097, 65535, 65536, 65537)
+			for _, l := range lens {
+				b := make([]byte, l)
+				for i := range b {
+					b[i] = dna10[(i*7+i/10+l)%10]
+				}
+				for d := 0; d < 3; d++ {
+					if !emit(c12Seq{core.S(b), d}) {
+						return
+					}
+				}
+			}
+		},
+		func(c c12Seq) core.Outcome {
+			src := c.Seq.B()
+			dst := dstVariants()[c.Dst]
+			dstCopy := bytes.Clone(dst)
+			want, _ := ref.RevComp(src)
+			var got []byte
+			var gotS string
+			if p := catch(func() { got = sequtil.ReverseComplement(dst, src); gotS = sequtil.ReverseComplementString(string(src)) }); p != "" {
+				return core.Failf("ReverseComplement of a sequence of length %d panicked: %s", len(src), p)
+			}
+			if !bytes.Equal(got, append(bytes.Clone(dstCopy), want...)) || gotS != string(want) || !bytes.Equal(src, c.Seq.B()) {
+				return core.Failf("ReverseComplement of a sequence of length %d (dst variant %d) is wrong: %q...", len(src), c.Dst, trunc(string(got), 60))
+			}
+			return core.Outcome{Class: "ok", Nontrivial: true, Evals: 2}
+		})
+
+	core.Clause(r, "canonical-kmers-long", core.Opts{Rule: "position-dependent sequences of length 40, 67, 130 (upper, lower and N-containing) x every k in 1..70: count, each item vs reference, strand independence; non-trivial = at least 2 items"},
+		func(emit func(c12Canon) bool) {
+			for _, l := range []int{40, 67, 130} {
+				for v := 0; v < 3; v++ {
+					b := make([]byte, l)
+					for i := range b {
+						b[i] = "ACGTTGCAAGCTCCGA"[(i*5+i/16+i*i/7)%16]
+						if v == 1 && i%3 == 1 {
+							b[i] += 'a' - 'A'
+						}
+						if v == 2 && i%11 == 4 {
+							b[i] = 'N'
+						}
+					}
+					for k := 1; k <= 70; k++ {
+						if !emit(c12Canon{core.S(b), k}) {
+							return
+						}
+					}
+				}
+			}
+		}, checkCanon)
+
 	LC := core.Pick(r, 6, 7)
 	r.Bound("canonical", fmt.Sprintf("all sequences over ACGTNa of length 0..%d x k in 1..%d", LC, LC+1))
 	core.Clause(r, "canonical-kmers", core.Opts{Rule: "every sequence over {A,C,G,T,N,a} up to the bound x every k in 1..bound+1; non-trivial = at least 2 items yielded"},
@@ -142,52 +200,54 @@ func runC12(r *core.Run) {
 				return true
 			})
 		},
-		func(c c12Canon) core.Outcome {
-			seq := c.Seq.B()
-			orig := bytes.Clone(seq)
-			var items [][]byte
-			if p := catch(func() {
-				for km := range sequtil.CanonicalSubsequences(seq, c.K) {
-					items = append(items, bytes.Clone(km))
-				}
-			}); p != "" {
-				return core.Failf("CanonicalSubsequences(%q,%d) panicked: %s", seq, c.K, p)
-			}
-			n := len(seq) - c.K + 1
-			if n < 0 {
-				n = 0
-			}
-			if len(items) != n {
-				return core.Failf("CanonicalSubsequences(%q,%d) yielded %d items, want %d", seq, c.K, len(items), n)
-			}
-			for i := 0; i < n; i++ {
-				km := orig[i : i+c.K]
-				rc, _ := ref.RevComp(km)
-				want := km
-				if bytes.Compare(rc, km) < 0 {
-					want = rc
-				}
-				if !bytes.Equal(items[i], want) {
-					return core.Failf("CanonicalSubsequences(%q,%d) item %d = %q, want %q", seq, c.K, i, items[i], want)
-				}
-			}
-			if !bytes.Equal(seq, orig) {
-				return core.Failf("seq modified")
-			}
-			// strand independence
-			rcSeq, _ := ref.RevComp(orig)
-			var items2 [][]byte
-			for km := range sequtil.CanonicalSubsequences(rcSeq, c.K) {
-				items2 = append(items2, bytes.Clone(km))
-			}
-			if len(items2) != n {
-				return core.Failf("reverse strand yielded %d items, want %d", len(items2), n)
-			}
-			for i := 0; i < n; i++ {
-				if !bytes.Equal(items2[n-1-i], items[i]) {
-					return core.Failf("CanonicalSubsequences(%q,%d): reverse strand item %d = %q, forward item %d = %q", seq, c.K, n-1-i, items2[n-1-i], i, items[i])
-				}
-			}
-			return core.Outcome{Class: fmt.Sprint("items", min(n, 3)), Nontrivial: n >= 2, Evals: 2}
-		})
+		checkCanon)
+}
+
+func checkCanon(c c12Canon) core.Outcome {
+	seq := c.Seq.B()
+	orig := bytes.Clone(seq)
+	var items [][]byte
+	if p := catch(func() {
+		for km := range sequtil.CanonicalSubsequences(seq, c.K) {
+			items = append(items, bytes.Clone(km))
+		}
+	}); p != "" {
+		return core.Failf("CanonicalSubsequences(%q,%d) panicked: %s", seq, c.K, p)
+	}
+	n := len(seq) - c.K + 1
+	if n < 0 {
+		n = 0
+	}
+	if len(items) != n {
+		return core.Failf("CanonicalSubsequences(%q,%d) yielded %d items, want %d", seq, c.K, len(items), n)
+	}
+	for i := 0; i < n; i++ {
+		km := orig[i : i+c.K]
+		rc, _ := ref.RevComp(km)
+		want := km
+		if bytes.Compare(rc, km) < 0 {
+			want = rc
+		}
+		if !bytes.Equal(items[i], want) {
+			return core.Failf("CanonicalSubsequences(%q,%d) item %d = %q, want %q", seq, c.K, i, items[i], want)
+		}
+	}
+	if !bytes.Equal(seq, orig) {
+		return core.Failf("seq modified")
+	}
+	// strand independence
+	rcSeq, _ := ref.RevComp(orig)
+	var items2 [][]byte
+	for km := range sequtil.CanonicalSubsequences(rcSeq, c.K) {
+		items2 = append(items2, bytes.Clone(km))
+	}
+	if len(items2) != n {
+		return core.Failf("reverse strand yielded %d items, want %d", len(items2), n)
+	}
+	for i := 0; i < n; i++ {
+		if !bytes.Equal(items2[n-1-i], items[i]) {
+			return core.Failf("CanonicalSubsequences(%q,%d): reverse strand item %d = %q, forward item %d = %q", seq, c.K, n-1-i, items2[n-1-i], i, items[i])
+		}
+	}
+	return core.Outcome{Class: fmt.Sprint("items", min(n, 3)), Nontrivial: n >= 2, Evals: 2}
 }
